@@ -18,6 +18,8 @@ type Oblig struct {
 	Func   string
 	CtxLen int   // prefix of ctx.cmds that is in scope
 	Goal   *Term // guarded goal (reach => goal)
+	Reach  *Term // the guard alone (nil when unknown): used for per-obligation reachability covers
+	Cond   *Term // the unguarded goal
 	Expect string // "unsat" (default) or "sat" (cover)
 	Note   string
 	Pos    string
